@@ -509,6 +509,9 @@ func (sp SynthSpec) Synthesize() (stream []byte, data []byte, strict bool, shape
 	if kinds == "B" {
 		return sp.synthEdgeEnd(r)
 	}
+	if kinds == "U" {
+		return sp.synthUnits(r)
+	}
 	if kinds == "M" {
 		return sp.synthManyLong(r)
 	}
@@ -838,6 +841,9 @@ func allZero(l []int) bool {
 // short matches across the window edge; then an empty final block.  Delivered one byte at a
 // time, every split point inside the symbols that straddle the edge is exercised.
 func (sp SynthSpec) synthWindowEdge(r *Rng) (stream []byte, data []byte, strict bool, shape string) {
+	if r.Intn(4) == 0 {
+		return sp.synthUnits(r)
+	}
 	w := &bitW{}
 	strict = true
 	var out []byte
@@ -847,6 +853,13 @@ func (sp SynthSpec) synthWindowEdge(r *Rng) (stream []byte, data []byte, strict 
 	target := 65536 + 32768*r.Intn(3) - r.Range(0, lead)
 	if r.Intn(4) == 0 {
 		target = 65536*(1+r.Intn(2)) - r.Range(0, 7)
+	}
+	// one stream in three: the first match is of length 258 (or 257) and the packed entry "literal(s) +
+	// that length" starts 258 bytes before the edge, so that the match ends just past it
+	bigLen := 0
+	if r.Intn(3) == 0 {
+		bigLen = 258 - r.Intn(6)/5
+		target = 65536 + 32768*r.Intn(3) - bigLen - lead + r.Range(-1, 2)
 	}
 	for len(out) < target {
 		n := target - len(out)
@@ -882,6 +895,9 @@ func (sp SynthSpec) synthWindowEdge(r *Rng) (stream []byte, data []byte, strict 
 			}
 			if isMatch {
 				t := tok{Len: r.Range(3, 6), Dist: r.Range(1, 4)}
+				if first && k0 == lead && bigLen > 0 {
+					t.Len = bigLen
+				}
 				toks = append(toks, t)
 				for i := 0; i < t.Len; i++ {
 					out = append(out, out[len(out)-t.Dist])
@@ -1118,4 +1134,77 @@ func (sp SynthSpec) synthEdgeEnd(r *Rng) (stream []byte, data []byte, strict boo
 		shape += "F"
 	}
 	return w.bytes(), out, strict, fmt.Sprintf("%s/end%+d", shape, end-edge)
+}
+
+// synthUnits: one long non-final dynamic block made of units <literal><match of length 258, distance
+// 1> (259 equal bytes each) after p leading literals, running across the edge of the decoder's first
+// output window: with short codes the lookup entry "literal + length 258" is packed, and for
+// p = 10 +- 1 such an entry starts 258 bytes before the edge and ends one byte past it.  The
+// assembly decode loops stay in their fast path all the way to the edge.  Then two literals, the
+// end-of-block code and an empty final block.
+func (sp SynthSpec) synthUnits(r *Rng) (stream []byte, data []byte, strict bool, shape string) {
+	w := &bitW{}
+	var out []byte
+	var toks []tok
+	usedL := make([]bool, 286)
+	usedD := make([]bool, 30)
+	usedL[256], usedL[285], usedD[0] = true, true, true
+	p := r.Pick([]int{9, 10, 11, 10, 9, 11, r.Intn(259)})
+	if sp.Kinds == "U" && sp.Size > 0 {
+		p = sp.Size
+	}
+	lit := func() {
+		c := byte('a' + r.Intn(3))
+		toks = append(toks, tok{Lit: c})
+		out = append(out, c)
+		usedL[c] = true
+	}
+	for i := 0; i < p; i++ {
+		lit()
+	}
+	// the unit that crosses the edge is the last one in three streams out of four (the input then ends
+	// a few bytes after it)
+	units := (65535-p)/259 + 1
+	if r.Intn(4) == 0 {
+		units += r.Range(1, 3)
+	}
+	// the first unit repeats its literal (distance 1); the others copy the run of the unit before
+	// (distance 259: the wide-copy path of the decode loops) in two streams out of three
+	far := r.Intn(3) != 0
+	for u := 0; u < units; u++ {
+		lit()
+		d := 1
+		if far && u > 0 {
+			d = 259
+			usedD[16] = true
+		}
+		toks = append(toks, tok{Len: 258, Dist: d})
+		for i := 0; i < 258; i++ {
+			out = append(out, out[len(out)-d])
+		}
+	}
+	// a varying number of trailing literals: the number of unread input bytes at the moment the last
+	// unit is decoded sweeps across the thresholds of the fast loops
+	for t := r.Intn(41); t > 0; t-- {
+		lit()
+	}
+	litLens, _, _ := codeFor(r, 286, usedL, 15, 0, 0, false)
+	distLens, _, _ := codeFor(r, 30, usedD, 15, 0, 0, false)
+	dynHeader(r, w, false, litLens, distLens, 1, 0, "")
+	writeTokens(w, toks, litLens, distLens, true)
+	strict = isComplete(litLens, 15) && (isComplete(distLens, 15) || single1(distLens) || allZero(distLens))
+	// what a Flush leaves behind (an empty stored block) in three streams out of four, so that some
+	// input is still unread when the last unit is decoded
+	sync := r.Intn(4) != 0
+	if sync {
+		w.bits(0, 1)
+		w.bits(0, 2)
+		w.align()
+		w.bits(0, 16)
+		w.bits(0xffff, 16)
+	}
+	w.bits(1, 1)
+	w.bits(1, 2)
+	w.bits(0, 7)
+	return w.bytes(), out, strict, fmt.Sprintf("U%d/%d/%v", p, units, sync)
 }
